@@ -146,13 +146,16 @@ Record machine := Machine {
   panicking : bool;              (* the thread is unwinding *)
   next_aid : nat;
   log : list event;              (* newest first *)
+  dead : list id;                (* GHOST (never read by the interpreter): every object that ever
+                                    entered the collector's drop pass; they are freed when the pass
+                                    completes and abandoned (leaked, unreachable) when it unwinds *)
 }.
 #[export] Instance eta_machine : Settable _ :=
   settable! Machine <heap; pc; pc_size; pc_alive; st_collecting; st_finalizing; st_dropping;
                      st_alloc; st_exec; cf_thr; cf_pnum; cf_pexp; cf_buf; cf_auto;
                      slots; wslots; cslots; values; bag; wparam;
                      fuse_trace; fuse_fin; fuse_drop; fuse_action; fuse_closure;
-                     panicking; next_aid; log>.
+                     panicking; next_aid; log; dead>.
 
 Inductive outcome := ONormal | OPanic | OAbort | OFuel.
 
@@ -164,7 +167,7 @@ Definition init (K : conf) : machine :=
           (k_thr0 K) 3602879701896397 55 0 true
           (replicate nslots None) (replicate nslots None) (replicate nslots None)
           (replicate nslots None) [] []
-          0 0 0 0 0 false 0%nat [].
+          0 0 0 0 0 false 0%nat [] [].
 
 Section Model.
   Context (K : conf) (P : prog).
@@ -951,7 +954,7 @@ Section Model.
           rec (KFinalizeList L L false old_f) (m <| st_finalizing := true |>)
         else
           let old_d := st_dropping m in
-          rec (KDropList L L old_d) (m <| st_dropping := true |>)
+          rec (KDropList L L old_d) (m <| st_dropping := true |> <| dead ::= app L |>)
       end
     end.
 
@@ -983,7 +986,7 @@ Section Model.
       let m := m <| st_finalizing := old_f |> in
       if negb any then
         let old_d := st_dropping m in
-        rec (KDropList L L old_d) (m <| st_dropping := true |>)
+        rec (KDropList L L old_d) (m <| st_dropping := true |> <| dead ::= app L |>)
       else
         (* swap_list + mark_self_and_append (lists.rs:306-336) *)
         let m := fold_left (fun m g => uhdr g (fun h => set_mark PC (reset_tc h)) m) L m in
